@@ -53,6 +53,25 @@ func c10Gen(t *rapid.T) c10Case {
 		}
 		c.Spec.Clients = append(c.Spec.Clients, cs)
 	}
+	if c.Cfg.DisableSlave && rapid.IntRange(0, 3).Draw(t, "movedpair") == 0 {
+		// a key whose slot has moved to another node (the proxy's table is stale): two writes in one segment, a
+		// pause, then the read; the old owner's redirections come back one after the other
+		ci := len(c.Spec.Clients)
+		slot := rapid.SampledFrom([]int{3000, 9000, 14000}).Draw(t, "movedslot")
+		to := (slot/5461 + 1 + rapid.IntRange(0, 1).Draw(t, "movedto")) % 3
+		k := keyFor(slot, ci, 950, 0)
+		v1, v2 := Bin(fmt.Sprintf("first-by-c%d", ci)), Bin(fmt.Sprintf("second-by-c%d", ci))
+		s1 := Req{Name: Bin("SET"), Args: []Bin{k, v1}}
+		s2 := Req{Name: Bin("SET"), Args: []Bin{k, v2}}
+		cs := ClientSpec{Reqs: []Req{s1, s2, {Name: Bin("GET"), Args: []Bin{k}}}}
+		cs.Cuts = []int{len(s1.Encode()) + len(s2.Encode())}
+		cs.PauseUs = rapid.SampledFrom([]int{2000, 10000, 25000}).Draw(t, "movedpause")
+		c.Spec.Clients = append(c.Spec.Clients, cs)
+		c.Spec.Values = append(c.Spec.Values, Value{Key: k, Val: v2, Store: true})
+		c.Spec.Moved = []SlotNode{{Slot: slot, Node: to}}
+		c.Spec.RedirDelayMs = rapid.SampledFrom([]int{0, 5}).Draw(t, "moveddelay")
+		c.Spec.RedirStagger = rapid.SampledFrom([]int{0, 15, 40}).Draw(t, "movedstagger")
+	}
 	nh := 0
 	for _, p := range c.Spec.Plans {
 		if p.Hold {
@@ -80,6 +99,11 @@ func c10Run(f *Fixture, c *c10Case) []Discrepancy {
 	}
 	// the store semantics for the SET/GET pairs: GET returns what SET wrote only if SET arrived first
 	spec := stampSpec(&c.Spec, f.Nonce())
+	if n := len(spec.Clients); len(spec.Moved) > 0 && len(spec.Clients[n-1].Reqs) == 3 {
+		// the moved-slot client: the cut falls right behind its two writes (their keys just grew by the nonce)
+		cs := &spec.Clients[n-1]
+		cs.Cuts = []int{len(cs.Reqs[0].Encode()) + len(cs.Reqs[1].Encode())}
+	}
 	ds := pipeRunCompare("C10", f, &c.Cfg, spec, 0)
 	if len(ds) > 0 {
 		return ds
@@ -135,6 +159,9 @@ func c10Classify(c *c10Case) (bool, []string) {
 	}
 	if c.KillFirst {
 		cls = append(cls, "cold-pool")
+	}
+	if len(c.Spec.Moved) > 0 {
+		cls = append(cls, "writes-then-read-on-a-moved-slot")
 	}
 	if c.Cfg.Password != "" {
 		cls = append(cls, "password")
